@@ -122,4 +122,16 @@ CLAIMS = {
     note="Trusted: TLC, the scripted server, bounded waits (6 s for a new session, 0.5 s for 'no further attempt'; back-off delays are tens "
          "of milliseconds). TLS-policy permanent errors are exercised in C04's model, not here. Keepalive interference during reconnection is C18's.",
     technique=TECH),
+ "C18": dict(
+    text="Keepalive.tla models the keepalive goroutine with the select race between a ready tick and the closed quit channel, ping failure at "
+         "the k-th ping and the close that follows; TLC checks ping-per-tick / failure-closes-once / no-ping-after-failure / no-ping-after-end and "
+         "quit ~> done, and emits every (failure point, end-of-session point and phase) combination. Each runs the REAL keepalive function against "
+         "a stub Transport, the session being ended exactly at the phase the behaviour says (through the ka.tick gate); in addition a real client "
+         "runs with intervals 5-40 ms (server timestamps the whitespace), with writes failing from the k-th keepalive on while reads block (the "
+         "library must close; the loss must be reported once), the same on a second session of the same client, and with the session ending on "
+         "the write path (unwritable <a/>). TLC judges counts, order and the time bounds.",
+    note="Trusted: TLC, wall-clock timestamps of the harness (upper bound exact: pings <= elapsed/interval + 1; lower bound tolerant: at least "
+         "half). At most one keepalive after the end of a session is accepted (its tick was already due). WebSocket pings are not driven. "
+         "Interference of an old session's keepalive with a connection re-established by a StreamManager is not covered.",
+    technique=TECH),
 }
